@@ -915,11 +915,8 @@ def g5_cfg(mod_toks, rt_toks, files=None):
 
     def rnorm(toks):
         return norm([("int", extra[t[1]]) if t[0] == "ident" and t[1] in extra else t for t in toks])
-    hdr, body = fn_body(rt_toks, "get_runtime_feature")
-    want = ("let mut feature = RUNTIME_FEATURE . load ( Ordering :: Relaxed ) ; if feature == 0 { feature = "
-            "detect_runtime_feature ( ) ; RUNTIME_FEATURE . store ( feature , Ordering :: Relaxed ) ; } feature")
-    if rnorm(body) != want:
-        raise TranslationError("runtime.rs get_runtime_feature changed: " + norm(body))
+    # get_runtime_feature itself is TRANSLATED (runtime2v.py, G15 -> Generated/Runtime.v) since round 14; what stays
+    # pinned here is what its translation rests on: the cell starts at 0 and detect() returns one of three non-zero ids
     i = find_item(rt_toks, "static", "RUNTIME_FEATURE")
     if rnorm(rt_toks[i:i + 12]) != "static RUNTIME_FEATURE : AtomicU8 = AtomicU8 :: new ( 0 ) ;":
         raise TranslationError("runtime.rs RUNTIME_FEATURE changed: " + norm(rt_toks[i:i + 12]))
@@ -1323,6 +1320,14 @@ def main():
         return text
 
     gen("SwarFns.v", swarfns)
+
+    def runtimev():
+        import runtime2v
+        text, errs = runtime2v.generate(toks("src/simd/runtime.rs"))
+        errors.extend("Runtime.v: " + e for e in errs)
+        return text
+
+    gen("Runtime.v", runtimev)
 
     coqdir = os.path.dirname(os.path.abspath(outdir))
 
